@@ -138,6 +138,10 @@ public:
       auto raw = impl().get_raw_value();                                       \
       auto ret = raw opSymbol raw_rhs;                                         \
       using T_Ret = decltype(ret);                                             \
+      /* an operand that converts implicitly to a raw pointer */               \
+      static_assert(!std::is_pointer_v<T_Ret>,                                 \
+                    "Operator " #opSymbol                                      \
+                    " cannot produce a pointer from an untainted operand");    \
       return tainted<T_Ret, T_Sbx>::internal_factory(ret);                     \
     }                                                                          \
   }                                                                            \
